@@ -153,3 +153,35 @@ PROPS["C16"] = dict(
     assumptions=["datagrams are at most 65535 bytes (larger ones are truncated by the OS before the code sees them)"],
     unproved=[],
 )
+
+RECV_SEND_NOTE = ("Trusted: Lean kernel; the Lean models of SendTransaction / RecvTransaction / Counter / Timer / filestore are tied to the code by the "
+                  "send / recv step engines: the real state machines are driven one method call per op line on a paused tokio clock (cfg(cfdp_verif) wrappers) "
+                  "and after every call the emitted PDU (bytes), the indications, has_pdu_to_send, until_timeout, a rendering of the internal "
+                  "bookkeeping (state, counters with elapsed ns, NAK queue, segment list, cursor ...) and the filestore listing are compared with the model's. "
+                  "The loop semantics (send only when has_pdu_to_send, handle_timeout only when due, nothing after Terminated) is lean/Cfdp/Model/Loop.lean; "
+                  "tokio's scheduling of the select! branches is not modelled (any order of enabled events is quantified over).")
+
+PROPS["C07"] = dict(
+    title="Sender transmits exactly the source file: right bytes, offsets, sizes, checksum",
+    module="Cfdp.Props.C07",
+    namespace="Cfdp.Send",
+    theorems=["C07_data", "C07_nak_queue"],
+    engines=["send"],
+    design="§6 C07",
+    technique="Lean 4 invariant proof over all event histories of the sender model + differential correspondence with SendTransaction",
+    level_text=("Kernel-checked over the Lean model of SendTransaction and the task loop: for every file, segment size and every history of loop events "
+                "(arbitrary NAK lists at any time, prompts, suspend/resume, cancel, timeouts) every file-data PDU transmitted carries exactly the file's "
+                "bytes at its offset, at most one segment, nothing beyond the end of the file, no segmented data is sent, every Metadata PDU states the "
+                "true names/size/closure/checksum type/options (C07_data), and the retransmission queue only ever holds the metadata marker or non-empty "
+                "in-file pieces of at most a segment (C07_nak_queue). The model is tied to send.rs by the send engine (500 quick / 6000 thorough random "
+                "histories compared step by step, byte-exact PDUs), whose oracles additionally check first-pass tiling, NAK answers inside the requested "
+                "ranges, EOF size/checksum and header fields on the implementation."),
+    level_note=RECV_SEND_NOTE,
+    rule=("send engine: random histories around a first pass (file sizes 0,1,seg-1,seg,seg+1,3seg,3seg+5,5seg-1; seg 16/24/32/64; both modes; closure; CRC; "
+          "Null/Modular checksum; fault handler overrides) with interleaved NAKs (overlapping, unsorted, empty, inverted, beyond EOF, longer than a segment, 0-0), "
+          "keep-alives, prompts, suspend/resume, cancel, report, ACK(EOF)/Finished at random rounds, timeouts at/just before deadlines. "
+          "Non-trivial = a PDU was emitted or an indication raised."),
+    assumptions=["the source file does not change between Put and EOF (metadata.file_size = length of the file read)", "0 < file_size_segment <= 65535"],
+    unproved=["first-pass tiling (offsets i*seg in order) and 'a NAK is answered with exactly the requested in-file part': checked by the send engine oracles (tiling, nak_answer) on the implementation",
+              "EOF states the true size and checksum; every PDU carries the transaction's ids/mode/direction and dataLen = payload length: send engine oracles (meta_eof, header) + byte-exact correspondence"],
+)
